@@ -14,7 +14,7 @@ Quantifiers: every finite history `ops : List Op` — any number of connections,
 every WebSocket/plain start, every early exit, every message, every I/O failure annotation
 (`Fail.rd` / `Fail.wr` on any connection at any message: EOF, reset and timeout all reach the code
 as "the read/write failed"), every set of acquired resources (`Res` is arbitrary), callbacks closing
-any client, shutdown and cleanup at any point — and every `Variant` of the code (which of the six
+any client, shutdown and cleanup at any point — and every `Variant` of the code (which of the seven
 known defects are fixed).
 
 What the theorems say
@@ -32,6 +32,8 @@ What the theorems say
 * `refcounts_exact`         (any variant) every screen's reference count equals the number of
                             records referencing it; with the fixes: the number of listed clients.
 * `refused_scale_changes_nothing`  an unsatisfiable SetScale leaves screen, reference and counts alone.
+* `extension_data_released`  an enabled extension's per-client data is gone as soon as the socket is closed.
+* `pointer_owner_listed`     `screen->pointerClient` is always a listed client.
 * `reaping_complete`, `shutdown_leaves_nobody`, `cleanup_leaves_nobody`   progress.
 * `isolation_*`             a step of connection `i` (teardown, message, failed message, accept)
                             leaves every other record untouched, except the two intended effects
@@ -61,27 +63,28 @@ theorem exactly_once (ops : List Op) (i : Nat) (c : Conn)
     (hc : (after Variant.fixed ops).conns[i]? = some c) (hended : i ∉ (after Variant.fixed ops).list) :
     c.closeCalls = 1 ∧ c.goneCalls = (if c.hooked then 1 else 0) ∧ c.sockOpen = false ∧
     c.freed = true ∧ c.refHeld = false ∧ c.res = {} ∧ c.wsctx = false ∧ c.wspath = false ∧
-    c.ftFd = false ∧ c.exts = 0 := by
+    c.ftFd = false ∧ c.exts = 0 ∧ c.extData = false := by
   have hd := (inv_after Variant.fixed ops).dead i c hc hended
   rcases hd.2.2 with ht | hn
   · exact ⟨hd.1, ht.1, hd.2.1, ht.2.1, ht.2.2.1, ht.2.2.2.1, ht.2.2.2.2.1, ht.2.2.2.2.2.1,
-      ht.2.2.2.2.2.2.1, ht.2.2.2.2.2.2.2⟩
+      ht.2.2.2.2.2.2.1, ht.2.2.2.2.2.2.2.1, ht.2.2.2.2.2.2.2.2⟩
   · exact absurd hn.1 (by decide)
 
 /-- … and nothing at all is lost for good (no record, wspath, extension node or descriptor) -/
 theorem nothing_lost (ops : List Op) :
     let w := after Variant.fixed ops
     w.nbLost = 0 ∧ w.recLost = 0 ∧ w.shutLeft = 0 ∧ w.wsLostGone = 0 ∧ w.wsLostHs = 0 ∧
-    w.stray = 0 ∧ w.extLost = 0 := by
-  obtain ⟨k1, k2, k3, k4, k5, k6⟩ := (inv_after Variant.fixed ops).counters
-  exact ⟨k1 rfl, (k2 rfl).1, (k2 rfl).2, k3 rfl, k4 rfl, k5 rfl, k6 rfl⟩
+    w.stray = 0 ∧ w.extLost = 0 ∧ w.extDataLost = 0 := by
+  obtain ⟨k1, k2, k3, k4, k5, k6, k7⟩ := (inv_after Variant.fixed ops).counters
+  exact ⟨k1 rfl, (k2 rfl).1, (k2 rfl).2, k3 rfl, k4 rfl, k5 rfl, k6 rfl, k7 rfl⟩
 
 /-- **at most once** — for every variant of the code, in particular the code as found -/
 theorem at_most_once (v : Variant) (ops : List Op) (i : Nat) (c : Conn)
     (hc : (after v ops).conns[i]? = some c) :
     c.goneCalls ≤ 1 ∧ c.closeCalls ≤ 1 ∧
     (c.goneCalls = 1 → c.closeCalls = 1 ∧ i ∉ (after v ops).list ∧ c.sockOpen = false ∧
-       c.res = {} ∧ c.refHeld = false ∧ c.wsctx = false ∧ c.wspath = false ∧ c.ftFd = false ∧ c.exts = 0) ∧
+       c.res = {} ∧ c.refHeld = false ∧ c.wsctx = false ∧ c.wspath = false ∧ c.ftFd = false ∧ c.exts = 0 ∧
+       c.extData = false) ∧
     (i ∈ (after v ops).list → c.goneCalls = 0 ∧ (c.sockOpen = true ↔ c.closeCalls = 0)) ∧
     (i ∉ (after v ops).list → c.sockOpen = false ∧ c.closeCalls = 1) := by
   have hinv := inv_after v ops
@@ -104,7 +107,7 @@ theorem at_most_once (v : Variant) (ops : List Op) (i : Nat) (c : Conn)
     · intro hone
       rcases hd.2.2 with ht | hn
       · exact ⟨hd.1, hi, hd.2.1, ht.2.2.2.1, ht.2.2.1, ht.2.2.2.2.1, ht.2.2.2.2.2.1,
-          ht.2.2.2.2.2.2.1, ht.2.2.2.2.2.2.2⟩
+          ht.2.2.2.2.2.2.1, ht.2.2.2.2.2.2.2.1, ht.2.2.2.2.2.2.2.2⟩
       · rw [hn.2.2.2.1] at hone; cases hone
     · intro h; exact absurd h hi
     · intro _; exact ⟨hd.2.1, hd.1⟩
@@ -118,10 +121,11 @@ theorem each_fix_suffices (v : Variant) (ops : List Op) :
     (v.goneWspath = true → w.wsLostGone = 0) ∧
     (v.wsOnePath = true → w.wsLostHs = 0) ∧
     (v.ftClose = true → w.stray = 0) ∧
-    (v.extFree = true → w.extLost = 0) := by
+    (v.extFree = true → w.extLost = 0) ∧
+    (v.goneExtClose = true → w.extDataLost = 0) := by
   have hinv := inv_after v ops
-  obtain ⟨k1, k2, k3, k4, k5, k6⟩ := hinv.counters
-  refine ⟨?_, k2, k3, k4, k5, k6⟩
+  obtain ⟨k1, k2, k3, k4, k5, k6, k7⟩ := hinv.counters
+  refine ⟨?_, k2, k3, k4, k5, k6, k7⟩
   intro hv
   refine ⟨k1 hv, ?_⟩
   intro i c hc hi
@@ -159,10 +163,28 @@ theorem refcounts_restored (ops : List Op) (i : Nat) (c : Conn) (d : Nat × Nat)
 
 /-- a scale factor that reduces a dimension to 0 is refused ("leaving things alone"): the client
 keeps its screen and, with it, its reference — nothing in the world changes -/
-theorem refused_scale_changes_nothing (w : World) (i k : Nat) (h : 64 / k = 0 ∨ 48 / k = 0) :
+theorem refused_scale_changes_nothing (w : World) (i k : Nat) (h : 128 / k = 0 ∨ 96 / k = 0) :
     setScale w i k = w := by
   unfold setScale scaleDims
   rcases h with h | h <;> simp [h]
+
+/-- **extension data is handed to the extension's close hook exactly once**: an enabled extension
+owns per-client data only while the client's socket is open; a closed or ended client has none left
+(and `nothing_lost` says none was dropped without the hook: `extDataLost = 0`) -/
+theorem extension_data_released (ops : List Op) (i : Nat) (c : Conn)
+    (hc : (after Variant.fixed ops).conns[i]? = some c) (hclosed : c.sockOpen = false) :
+    c.extData = false := by
+  have hinv := inv_after Variant.fixed ops
+  by_cases hi : i ∈ (after Variant.fixed ops).list
+  · exact ((hinv.live i c hc hi).2.2.2.2 hclosed).2.2
+  · exact (exactly_once ops i c hc hi).2.2.2.2.2.2.2.2.2.2
+
+/-- **the pointer never stays with a dead client** (any variant): `screen->pointerClient` is always a
+listed client, so the other clients' pointer events are not locked out by a connection that ended
+with a button down -/
+theorem pointer_owner_listed (v : Variant) (ops : List Op) (i : Nat)
+    (h : (after v ops).ptrOwner = some i) : i ∈ (after v ops).list :=
+  (inv_after v ops).ptr i h
 
 /-- **progress 1**: one pass of the reaping loop of `rfbProcessEvents` hands every listed client
 whose socket is closed to `rfbClientConnectionGone` (any variant, any reachable world) -/
@@ -268,7 +290,17 @@ theorem defect_ft_fd_leak :
 def extTrace : List Op :=
   [.ext, .conn .accept 0 false .none, .send 0 .ver [] [], .closePeer 0 [] [], .shutdown, .cleanup]
 theorem defect_extension_node_leak :
-    (after Variant.current extTrace).extLost = 1 ∧ (after Variant.fixed extTrace).extLost = 0 := by decide
+    (after Variant.current extTrace).extLost = 2 ∧ (after Variant.fixed extTrace).extLost = 0 := by decide
+
+/-- extclose.ops — `rfbScreenCleanup` without `rfbShutdownServer` on a client with an enabled
+extension: the extension's close hook never runs, its per-client data is lost (found in round 2) -/
+def extcloseTrace : List Op :=
+  [.ext, .conn .accept 0 false .none, .send 0 .ver [] [], .send 0 .sec [] [], .send 0 (.init true) [] [],
+   .cleanup]
+theorem defect_cleanup_extension_close_skipped :
+    (after Variant.current extcloseTrace).extDataLost = 1 ∧
+    (after Variant.fixed extcloseTrace).extDataLost = 0 ∧
+    (after Variant.fixed extcloseTrace).log.filter (· == .xclose 0 true) = [.xclose 0 true] := by decide
 
 /-- hence the full-strength statement is false for the code as found -/
 theorem exactly_once_false_for_current :
@@ -297,14 +329,14 @@ def exOps : List Op :=
 example : (after Variant.fixed exOps).list = [] ∧
     (after Variant.fixed exOps).conns.map (fun c => (c.hooked, c.goneCalls, c.closeCalls, c.freed)) =
       [(true, 1, 1, true), (true, 1, 1, true), (true, 1, 1, true)] ∧
-    (after Variant.fixed exOps).screens.map (fun s => (s.w, s.h, s.refs)) = [(64, 48, 0), (32, 24, 0)] := by
+    (after Variant.fixed exOps).screens.map (fun s => (s.w, s.h, s.refs)) = [(128, 96, 0), (64, 48, 0)] := by
   decide
 
 /-- … while in the middle of the same history the first client really holds resources and a
 reference on the scaled screen (so `refcounts_exact` and `at_most_once` talk about live state) -/
 example : (after Variant.fixed (exOps.take 6)).list = [0] ∧
     (after Variant.fixed (exOps.take 6)).conns.map (fun c => (c.sockOpen, c.res.z, c.res.b, c.scr)) =
-      [(true, 1, 2, (32, 24))] ∧
+      [(true, 1, 2, (64, 48))] ∧
     (after Variant.fixed (exOps.take 6)).screens.map (·.refs) = [0, 1] := by decide
 
 /-- `reaping_complete`: a listed client with a closed socket exists (closed by the application) -/
